@@ -80,7 +80,13 @@ def record(ctx, tree, op, now):
         return p[len(root) + 1:] if p.startswith(root + "/") else None
 
     def lopen(path, mode="r", *a, **k):
-        f = ropen(path, mode, *a, **k)
+        try:
+            f = ropen(path, mode, *a, **k)
+        except OSError:
+            r = rel(path) if isinstance(path, (str, bytes, os.PathLike)) else None
+            if r is not None and any(c in mode for c in "wax+"):
+                log.append(("open-failed", r, mode))   # (the audit hook sees the attempt; nothing reached the disk)
+            raise
         r = rel(path) if isinstance(path, (str, bytes, os.PathLike)) else None
         if r is not None and any(c in mode for c in "wax+"):
             w = _WFile(log, r, f)
@@ -129,7 +135,7 @@ def record(ctx, tree, op, now):
         if k is None:
             raise HarnessError(f"crash seam: unlogged kind of file-system operation {ev}")
         aud.append((k, rel(ev[1])))
-    logged = [(o[0], o[1]) for o in log if o[0] in ("open", "mkdir", "replace", "remove")]
+    logged = [(o[0].replace("open-failed", "open"), o[1]) for o in log if o[0] in ("open", "open-failed", "mkdir", "replace", "remove")]
     if aud != logged:
         raise HarnessError(f"crash seam: audit events and write log disagree\n audit {aud}\n log   {logged}")
     # and replaying the whole log on the pre-state must give the real final tree
